@@ -13,6 +13,7 @@
 #include <functional>
 #include <exception>
 #include <stdexcept>
+#include <chrono>
 #include <fcntl.h>
 #include <unistd.h>
 #include "bytesource.h"
@@ -226,6 +227,13 @@ int main(int argc, char** argv) {
     bool ok = rc::check(std::string(PROPERTY), [&]() {
       // length uniform in 0..LMAX; elements are drawn at the nominal size so that all 8 bits are uniform
       const std::vector<uint8_t> b = *rc::gen::resize(LMAX, rc::gen::container<std::vector<uint8_t>>(rc::gen::resize(rc::kNominalSize, rc::gen::arbitrary<uint8_t>())));
+      // shrinking budget: once a failure is in hand, at most 4000 further evaluations or 20 s are spent on minimising it;
+      // afterwards every candidate is declared passing, which ends rapidcheck's shrink search with the best case so far
+      if (have_fail) {
+        static auto t0 = std::chrono::steady_clock::now();
+        static long evals = 0;
+        if (++evals > 4000 || std::chrono::steady_clock::now() - t0 > std::chrono::seconds(20)) return;
+      }
       std::string sig, msg, sample;
       if (guarded(b.data(), b.size(), &sig, &msg, &sample)) {
         st.frozen = true; have_fail = true;
